@@ -219,7 +219,7 @@ def run_check(pid: str, tier: str, master: int, jobs: int, runs: int | None,
         deadline = t0 + budget
 
         def submit_more():
-            while len(pending) < jobs * 3:
+            while len(pending) < jobs * 2:
                 try:
                     i = next(it)
                 except StopIteration:
@@ -262,10 +262,22 @@ def run_check(pid: str, tier: str, master: int, jobs: int, runs: int | None,
                 harness_errors.append(f"case {r['idx']} seed_i={r['seed_i']}: {r['harness_error']}")
 
         # ---- violations: group by tag, minimise one representative per tag
+        # every single violation is matched against the listed known findings first (by its own
+        # tag, call site / situation and the features of its case); only the rest is minimised and reported
         by_tag: dict[str, list[dict]] = {}
+        all_tags: Counter = Counter()
+        matched_known: Counter = Counter()
         for r in results:
+            seen_tags = set()
             for v in r.get("violations", []):
-                by_tag.setdefault(v["tag"], []).append(r)
+                all_tags[v["tag"]] += 1
+                k = match_known(known, v, set(r.get("features", [])))
+                if k is not None:
+                    matched_known[k["text"]] += 1
+                    continue
+                if v["tag"] not in seen_tags:
+                    seen_tags.add(v["tag"])
+                    by_tag.setdefault(v["tag"], []).append(r)
         reports = []
         shrink_budget = tiers.get("shrink", 150)
         futs = {}
@@ -303,7 +315,6 @@ def run_check(pid: str, tier: str, master: int, jobs: int, runs: int | None,
     from ladsim import gen
 
     exit_code = 0
-    matched_known: Counter = Counter()
     violation_lines = []
     rep_dir = VERIF / "replays" / pid
     feats_fn = getattr(orc, "features", None) or (lambda sc: gen.features(sc) if "time" in sc else set())
@@ -318,8 +329,8 @@ def run_check(pid: str, tier: str, master: int, jobs: int, runs: int | None,
             "original_scenario": rep["case"]["scenario"], "occurrences_in_batch": rep["count"],
             "shrink_evaluations": rep["min"]["used"], "ladsim_version": VERSION,
         }
-        if k is not None:
-            matched_known[k["text"]] += rep["count"]
+        if k is not None:      # the minimised case turned out to be a listed finding
+            matched_known[k["text"]] += 1
             continue
         rep_dir.mkdir(parents=True, exist_ok=True)
         path = rep_dir / f"{master}-{rep['case']['idx']}-{rep['tag'].replace('/', '_').replace(':', '_')}.json"
@@ -370,7 +381,8 @@ def run_check(pid: str, tier: str, master: int, jobs: int, runs: int | None,
             "exceptions_of_code_under_test": dict(abort_reasons.most_common(12)),
             "premise_left": sum(r.get("premise_left", 0) for r in ok_results),
             "cut_short_by_budget": cut_short,
-            "violation_tags": {t: len(rs) for t, rs in sorted(by_tag.items())},
+            "violation_tags": dict(sorted(all_tags.items())),
+            "violation_tags_not_explained_by_known_findings": {t: len(rs) for t, rs in sorted(by_tag.items())},
             "known_findings_matched": dict(matched_known),
             "fixed_findings_on_record": fixed,
             "components": getattr(orc, "COMPONENTS", {}),
